@@ -7,6 +7,7 @@ import PsVerif.Lemmas.GramAlg
 import PsVerif.Lemmas.SqrtOrder
 import PsVerif.Model.NormCalc
 import PsVerif.Props.C04
+import PsVerif.Props.C01
 namespace PsVerif
 open Matrix
 
@@ -122,6 +123,12 @@ theorem gqr_unconstrained_eq_qr (B : RMat) (cfg : GqrCfg) (h : cfg.opt = .uncons
     simp only [GqrCfg.mask, pmask, noMask, hm]
   rw [this]
   rfl
+
+/-- **C03 (SSPOR).** An SSPOR model's leading `n_basis_modes` sensors are exactly the optimizer's
+ranking of its own basis matrix: the shuffle of the unranked tail (any seed) does not touch them. -/
+theorem sspor_lead_eq_optimizer (σ : List Nat → List Nat) (m : Nat) (r : List Nat) (hm : m ≤ r.length) :
+    (tailShuffle σ m r).take m = r.take m :=
+  tailShuffle_take σ m r hm
 
 /-- non-vacuity: a concrete run with a tie-free trace -/
 example : qrModel #[#[1, 0], #[0, 2], #[3, 1]] = [2, 1, 0] := by decide +kernel
